@@ -238,8 +238,15 @@ func GenRuleSet(t *rapid.T, o RuleOpts) *Generated {
 						// a back-reference: single backslash + digit, not followed by a digit
 						n := rapid.SampledFrom([]int{0, 0, 1, 1, 2, 3}).Draw(t, "brn")
 						info.BrefN = n
+						if rapid.IntRange(0, 5).Draw(t, "brthendigit") == 0 {
+							// the pattern continues with a digit right after the back-reference: \1 then "2", not group 12
+							pat = &Pat{Kind: "cat", Kids: []*Pat{{Kind: "lit", Text: rapid.SampledFrom([]string{"1", "2", "0", "10"}).Draw(t, "brdigits")}, pat}}
+							pattern = renderSafe(pat)
+							info.Pat = pat
+						}
 						switch k := rapid.IntRange(0, 3).Draw(t, "brpos"); {
-						case k == 0 && !startsWithDigit(pattern):
+						case (k == 0 || startsWithDigit(pattern)) && (!startsWithDigit(pattern) || info.Pat == pat):
+							// \N directly followed by a digit of the pattern is still group N followed by that digit
 							pattern = fmt.Sprintf(`\%d`, n) + pattern
 							info.BrefPrefix = true
 						case k == 1:
